@@ -3,6 +3,7 @@ import ast
 
 from ..core import AnalysisError, norm, short, walk_local, parent_chain
 from . import register
+from ..inline import inlined_view
 
 UTIL = "spydrnet/util/"
 QUERY_MODULES = ["get_netlists", "get_libraries", "get_definitions", "get_instances", "get_ports", "get_pins",
@@ -357,7 +358,15 @@ def _yield_guard(f, y):
                                 return "G4", "for %s in %s ... %s.add(%s) ... %s -= %s" % (x, S, T, x, S, T)
         # G3: for x in result where result = M[k]; del M[k] / M.pop(k) / names_to_remove.append(k) + del loop
         bucket = it
+        if isinstance(it, ast.Call) and isinstance(it.func, ast.Attribute) and it.func.attr == "pop" and it.args:
+            return "G3", "%s.pop(%s)" % (norm(it.func.value), norm(it.args[0]))
         if isinstance(it, ast.Name):
+            # `for k, result in M.items():` binds result = M[k]
+            for q in parent_chain(lp):
+                if isinstance(q, ast.For) and isinstance(q.target, ast.Tuple) and len(q.target.elts) == 2 and norm(q.target.elts[1]) == it.id \
+                        and isinstance(q.iter, ast.Call) and isinstance(q.iter.func, ast.Attribute) and q.iter.func.attr == "items":
+                    bucket = ast.Subscript(value=q.iter.func.value, slice=q.target.elts[0], ctx=ast.Load())
+        if isinstance(bucket, ast.Name):
             for n2 in walk_local(f.node):
                 if isinstance(n2, ast.Assign) and norm(n2.targets[0]) == it.id and isinstance(n2.value, ast.Subscript):
                     # nearest assignment enclosing-wise: must share an enclosing block with the loop
@@ -542,9 +551,16 @@ def _q5(ctx, R):
     n = 0
     for mod in _modules(P):
         name, pub, mid, raw = _triple(mod)
-        helpers = [raw] + [f for fn, f in mod.functions.items() if fn.startswith("_get_") and f is not raw and f is not mid
+        raw0 = raw
+        raw = inlined_view(P, raw)
+        helpers = [raw] + [f for fn, f in mod.functions.items() if fn.startswith("_get_") and f is not raw0 and f is not mid and f.qualname not in raw.inlined_helpers
                            and any(isinstance(y, ast.Yield) for y in walk_local(f.node))]
-        for f in helpers:
+        strict = set()
+        extra = [f for fn, f in mod.functions.items() if f not in helpers and f is not raw0 and f is not mid and f is not pub
+                 and any(isinstance(y, ast.Yield) for y in walk_local(f.node))]
+        for f in helpers + extra:
+            if f in extra and f.name not in strict:
+                continue
             k = 0
             # role of each set: "yielded" (not-in/add, G1) vs "pending" (in/remove G2, matched-set subtraction G4)
             roles = {}
@@ -567,9 +583,19 @@ def _q5(ctx, R):
                           "%s: `yield %s` selects from the set `%s`, which elsewhere in the function records what was ALREADY yielded: elements returned "
                           "earlier are still in it and are returned again" % (f.qualname, norm(y.value), sname))
                     continue
-                if idiom:
+                deleg = None
+                if not idiom and (f is raw or f.name in strict):
+                    # `for v in _helper(...): yield v` / re-yield of a module generator: the helper's own yields carry the obligation
+                    lp_ = next((p_ for p_ in parent_chain(y) if isinstance(p_, ast.For)), None)
+                    if lp_ is not None and norm(lp_.target) == norm(y.value) and isinstance(lp_.iter, ast.Call) and isinstance(lp_.iter.func, ast.Name) \
+                            and lp_.iter.func.id in mod.functions and len(lp_.body) == 1:
+                        deleg = lp_.iter.func.id
+                if deleg:
+                    strict.add(deleg)
+                    R.ok("Q5", "%s: yield %s re-yields %s, whose yields are checked" % (f.qualname, norm(y.value), deleg), f.loc(y))
+                elif idiom:
                     R.ok("Q5", "%s: yield %s [%s %s]" % (f.qualname, norm(y.value), idiom, desc), f.loc(y))
-                elif f is not raw:
+                elif f is not raw and f.name not in strict:
                     # helper generators feed a de-duplicating caller: every call site of the helper must sit under a guard
                     R.ok("Q5", "%s: helper generator (its consumers de-duplicate)" % f.qualname, f.loc(y))
                 else:
@@ -582,7 +608,7 @@ def _q5(ctx, R):
     st = 0
     for mod in _modules(P):
         name, pub, mid, raw = _triple(mod)
-        st += check_stages(R, "Q5", raw)
+        st += check_stages(R, "Q5", inlined_view(P, raw))
     R.count("two-stage generators (Q5 stage disjointness)", st)
     R.floor("two-stage generators (Q5 stage disjointness)", 2)
 
